@@ -116,6 +116,90 @@ func c08AfterErrors(c *rt.Ctx, sub0 int, interps []c08Interp) {
 	c.Obs("after_error_histories", int64(len(more)*len(failing)))
 }
 
+// c08GCMaps: collections (and allocations that take over what they free) from inside callbacks
+// while a map is being traversed, in every interpreter, sorted and unordered, on fresh and on warm
+// pooled contexts. The per-map iteration state lives in a slot of the working area.
+func c08GCMaps(c *rt.Ctx, sub0 int) {
+	type holder struct {
+		A int
+		M map[string]zoo.GCChurn
+		K map[zoo.GCChurn]int
+		N map[string]map[string]zoo.GCChurn
+		Z string
+	}
+	mk := func(n int) holder {
+		h := holder{A: n, M: map[string]zoo.GCChurn{}, K: map[zoo.GCChurn]int{}, N: map[string]map[string]zoo.GCChurn{}, Z: "z"}
+		for i := 0; i < 6; i++ {
+			h.M[fmt.Sprint("m", i)] = zoo.GCChurn{N: i}
+			h.K[zoo.GCChurn{N: 10 + i}] = i
+		}
+		h.N["a"] = map[string]zoo.GCChurn{"x": {N: 20}, "y": {N: 21}}
+		h.N["b"] = map[string]zoo.GCChurn{"z": {N: 22}}
+		return h
+	}
+	scheme := &gojson.ColorScheme{}
+	entries := []struct {
+		name string
+		f    func(x any) ([]byte, error)
+	}{
+		{"vm", func(x any) ([]byte, error) { return gojson.Marshal(x) }},
+		{"vm_indent", func(x any) ([]byte, error) { return gojson.MarshalIndent(x, "", " ") }},
+		{"vm_color", func(x any) ([]byte, error) { return gojson.MarshalWithOption(x, gojson.Colorize(scheme)) }},
+		{"vm_color_indent", func(x any) ([]byte, error) {
+			return gojson.MarshalIndentWithOption(x, "", " ", gojson.Colorize(scheme))
+		}},
+		{"vm:UnorderedMap", func(x any) ([]byte, error) { return gojson.MarshalWithOption(x, gojson.UnorderedMap()) }},
+		{"vm_color:UnorderedMap", func(x any) ([]byte, error) {
+			return gojson.MarshalWithOption(x, gojson.Colorize(scheme), gojson.UnorderedMap())
+		}},
+		{"vm_indent:UnorderedMap", func(x any) ([]byte, error) { return gojson.MarshalIndentWithOption(x, "", " ", gojson.UnorderedMap()) }},
+		{"vm_color_indent:UnorderedMap", func(x any) ([]byte, error) {
+			return gojson.MarshalIndentWithOption(x, "", " ", gojson.Colorize(scheme), gojson.UnorderedMap())
+		}},
+	}
+	vals := []any{mk(1), &holder{A: 2, M: map[string]zoo.GCChurn{"only": {N: 1}}}, map[string]any{"h": mk(3), "c": zoo.GCChurn{N: 4}}, []any{mk(5).M, mk(6).K}}
+	for vi, x := range vals {
+		want, serr := stdjson.Marshal(x)
+		if serr != nil {
+			continue
+		}
+		var wantV any
+		stdjson.Unmarshal(want, &wantV)
+		for ei, e := range entries {
+			for _, fresh := range []bool{true, false} {
+				sub := sub0 + vi*100 + ei*2
+				if !c.Cur(sub, fmt.Sprintf("shapes=core\nGC inside map traversal: %T via %s", x, e.name)) {
+					continue
+				}
+				if fresh {
+					// empty the pools: a new context has no stale references in its spare capacity
+					runtime.GC()
+					runtime.GC()
+				}
+				var got []byte
+				var err error
+				pan, msg, frame := rt.Guard(func() { got, err = e.f(x) })
+				c.Eval(1)
+				var gotV any
+				perr := stdjson.Unmarshal(got, &gotV)
+				if pan || err != nil || perr != nil || !reflect.DeepEqual(gotV, wantV) {
+					if frame == "" {
+						frame = "no-gojson-frame"
+					}
+					kind := "output-differs-after-gc-in-map"
+					if pan {
+						kind = "panic:" + rt.PanicClass(msg)
+					}
+					c.Violate(rt.Violation{Monitor: "gc-callback", Entry: e.name, Kind: kind, Ctx: fmt.Sprintf("map-traversal:fresh=%v", fresh),
+						Detail: fmt.Sprintf("%T via %s: err=%v panic=%v %s parse=%v got %s want %s", x, e.name, err, pan, msg, perr, rt.Q(got), rt.Q(want)), Sub: sub})
+				}
+				c.Obs("gc_in_map_traversal_encodings", 1)
+			}
+		}
+		c.NonTrivial("gc-map", fmt.Sprint(vi))
+	}
+}
+
 func c08Run(c *rt.Ctx, sub int, x any, t reflect.Type, feat string, interps []c08Interp, cyclic bool) {
 	input := map[string]any{"type": t.String()}
 	if !cyclic {
@@ -579,6 +663,9 @@ func init() {
 				}
 				if k == 19 {
 					c08AfterErrors(c, 900, interps)
+				}
+				if k == 20 {
+					c08GCMaps(c, 2000)
 				}
 				c.Sample(map[string]any{"family": "GC/stack-growth callbacks", "values": 12, "stack_resident_entry_points": len(stackEntries)})
 			}
